@@ -56,7 +56,7 @@ theorem updateIndex_ok {c : Bool} {len : Nat} {off : Int} {a : Ix} {inc : Int} {
     match a with
     | .at e => nd = none ∧ inc = e.resolve len * off ∧ (c = true → 0 ≤ e.resolve len ∧ e.resolve len < len)
     | .range b e => ∃ n o, nd = some (n, o) ∧ updateRange c len off b e 1 = .ok (inc, n, o)
-    | .stride b e s => ∃ n o, nd = some (n, o) ∧ updateRange c len off b e s = .ok (inc, n, o)
+    | .stride b e s => ∃ n o, nd = some (n, o) ∧ updateRange c len off b e (s.resolve len) = .ok (inc, n, o)
     | .all => nd = some (len, off) ∧ inc = 0 := by
   cases a with
   | «at» e =>
@@ -80,7 +80,7 @@ theorem updateIndex_ok {c : Bool} {len : Nat} {off : Int} {a : Ix} {inc : Int} {
       exact ⟨n, o, rfl, rfl⟩
   | stride b e s =>
     simp only [updateIndex] at h ⊢
-    cases hr : updateRange c len off b e s with
+    cases hr : updateRange c len off b e (s.resolve len) with
     | error x => simp [hr, bind, Except.bind] at h
     | ok r =>
       obtain ⟨i, n, o⟩ := r
@@ -389,7 +389,7 @@ theorem getIndex_checked (e : EndExpr) (len : Nat) :
 /-- the C++ result is meaningful: non-zero stride and a non-negative extent -/
 def ArgDefined (len : Nat) : Ix → Prop
   | .range b e => 0 ≤ (e.resolve len + 1 - b.resolve len).tdiv 1
-  | .stride b e s => s ≠ 0 ∧ 0 ≤ (e.resolve len + s - b.resolve len).tdiv s
+  | .stride b e s => s.resolve len ≠ 0 ∧ 0 ≤ (e.resolve len + s.resolve len - b.resolve len).tdiv (s.resolve len)
   | _ => True
 
 def ArgsDefined : List Nat → List Ix → Prop
@@ -1401,7 +1401,7 @@ theorem updateIndex_checked_imp {len : Nat} {off : Int} {a : Ix} {r : Int × Opt
     | ok q => rw [updateRange_checked_imp hr]; simpa [hr, bind, Except.bind] using h
   | stride b e s =>
     simp only [updateIndex] at h ⊢
-    cases hr : updateRange true len off b e s with
+    cases hr : updateRange true len off b e (s.resolve len) with
     | error x => simp [hr, bind, Except.bind] at h
     | ok q => rw [updateRange_checked_imp hr]; simpa [hr, bind, Except.bind] using h
   | all => simpa [updateIndex] using h
